@@ -298,6 +298,13 @@ def text_variant_programs():
         inner = ret.strip()[len("return ["):-1]
         pr["text"] = text.replace(ret, "    return " + wrap.replace("{L}", inner))
         progs.append(pr)
+    # a fresh Party object at every use: parties are what their names say, however many objects carry a name
+    import re as _re
+    pr = targeted.prog(list(base), list(outs), ["text-variant", "party-object-at-every-use"])
+    text = surface.to_python(pr)
+    lines_ = [l for l in text.split("\n") if not _re.match(r"\s*party_\w+ = Party\(", l)]
+    pr["text"] = _re.sub(r"party_(\w+)", lambda mm: "Party(name='" + mm.group(1) + "')", "\n".join(lines_))
+    progs.append(pr)
     # a generator function as nada_main
     pr = targeted.prog(list(base), list(outs), ["text-variant", "outputs-yielded"])
     text = surface.to_python(pr)
